@@ -532,6 +532,7 @@ type Contract struct {
 	Asserts  []*Clause
 	Fresh    []string // results / places declared fresh (not aliasing any input)
 	MaybeNil []string
+	Uses     []string // lemmas (by name) assumed as hypotheses inside this function
 	Inlines  []string          // lemma functions: callees to execute by their bodies although they have contracts
 	Unrolls  map[string]int    // "pkg.Func#loop" -> max iterations (lemma functions: unroll instead of cutting at invariants)
 	Reads    map[string][2]int64 // `reads p[lo:hi]`: the function depends on parameter p only through p[lo:hi]
@@ -539,6 +540,8 @@ type Contract struct {
 }
 
 type Lemma struct {
+	Uses   []string // other lemmas assumed while proving this one (`lemma NAME [induction n] uses A,B : ...`); no cycles
+	Induct string // `lemma NAME induction n : forall n, xs :: body` — proved by induction on n >= 0
 	Name string
 	Tags []string
 	E    *CExpr
@@ -564,7 +567,7 @@ type ContractSet struct {
 var clauseKeywords = map[string]bool{
 	"func": true, "props": true, "requires": true, "ensures": true, "assigns": true, "loop": true, "alias": true,
 	"inline": true, "trusted": true, "panics": true, "nooverflow": true, "lemma": true, "pure": true, "opaque": true,
-	"extern": true, "assert": true, "fresh": true, "maybenil": true, "package": true, "pred": true, "tagset": true, "aset": true, "reads": true, "inlines": true, "unroll": true, "exit": true,
+	"extern": true, "assert": true, "fresh": true, "maybenil": true, "package": true, "pred": true, "tagset": true, "aset": true, "reads": true, "inlines": true, "unroll": true, "exit": true, "use": true,
 }
 
 // assignSets: `//@ aset name := $.f, $.g[0:4]` — a reusable list of assigns items, `$` is the argument.
@@ -721,11 +724,22 @@ func (cs *ContractSet) ReadFile(path, pkgName string, external bool) error {
 			if err != nil {
 				return err
 			}
-			lname, ltags := splitTags(strings.TrimSpace(rest[:i]))
+			head := strings.Fields(strings.TrimSpace(rest[:i]))
+			induct := ""
+			var luses []string
+			for k := 1; k+1 < len(head); k += 2 {
+				switch head[k] {
+				case "induction":
+					induct = head[k+1]
+				case "uses":
+					luses = strings.Split(head[k+1], ",")
+				}
+			}
+			lname, ltags := splitTags(head[0])
 			if ltags == nil {
 				ltags = tags
 			}
-			cs.Lemmas = append(cs.Lemmas, &Lemma{Name: lname, Tags: ltags, E: e, Src: strings.TrimSpace(rest[i+1:]), Pos: l.pos})
+			cs.Lemmas = append(cs.Lemmas, &Lemma{Name: lname, Tags: ltags, E: e, Src: strings.TrimSpace(rest[i+1:]), Pos: l.pos, Induct: induct, Uses: luses})
 			cur = nil
 		case "opaque":
 			if cur == nil {
@@ -885,6 +899,8 @@ func (cs *ContractSet) ReadFile(path, pkgName string, external bool) error {
 				default:
 					return fmt.Errorf("%s: unknown loop clause %q", l.pos, f[1])
 				}
+			case "use":
+				cur.Uses = append(cur.Uses, strings.Fields(strings.ReplaceAll(rest, ",", " "))...)
 			case "inlines":
 				cur.Inlines = append(cur.Inlines, strings.Fields(strings.ReplaceAll(rest, ",", " "))...)
 			case "unroll":
@@ -986,4 +1002,41 @@ func splitTopLevel(s string, sep rune) []string {
 
 func NewContractSet() *ContractSet {
 	return &ContractSet{Funcs: map[string]*Contract{}, Opaque: map[string]bool{}, Preds: map[string]*Pred{}}
+}
+
+// substIdent replaces free occurrences of identifier name in e by repl.
+func substIdent(e *CExpr, name string, repl *CExpr) *CExpr {
+	if e == nil {
+		return nil
+	}
+	switch e.Kind {
+	case "ident":
+		if e.Name == name {
+			return repl
+		}
+		return e
+	case "num", "str":
+		return e
+	case "forall", "exists":
+		for _, v := range e.Vars {
+			vn := v
+			if i := strings.Index(v, ":"); i >= 0 {
+				vn = v[:i]
+			}
+			if vn == name {
+				return e
+			}
+		}
+	}
+	n := *e
+	n.X = substIdent(e.X, name, repl)
+	n.Y = substIdent(e.Y, name, repl)
+	n.Z = substIdent(e.Z, name, repl)
+	if e.Args != nil {
+		n.Args = make([]*CExpr, len(e.Args))
+		for i, a := range e.Args {
+			n.Args[i] = substIdent(a, name, repl)
+		}
+	}
+	return &n
 }
